@@ -25,7 +25,7 @@
     by `recycle` forgets its publications (`expireDuration`), which the statements make explicit by speaking
     about the publications remembered by the node (`Node.pubs`) and `node_pubs_published`.
 -/
-import ClientGoVerif.Proofs.LatchTerm
+import ClientGoVerif.Proofs.LatchCommit
 namespace CGV.Props.C17
 open CGV CGV.Latch
 
@@ -364,6 +364,40 @@ theorem stale_exact_wakeup {cfg : Cfg} {s s' : State} (hr : Reachable cfg s) {a 
   · have hr1 : Reachable cfg (recycleSlot cfg s i ts) := Reachable.step (.recycle i ts) hr rfl
     exact eff_wakeup_exact hr1.inv12.1 hr1.inv12.2 hr1.inv3 hr1.inv4 e hlw hpw hkw hlw' hpw'
 
+/-! ### the transaction layer's use of the scheduler (`KVTxn.Commit`) -/
+
+/-- When every request is finished no node has an owner and every waiting list is empty: nothing leaks. -/
+theorem finished_means_free {cfg : Cfg} {s : State} (hr : Reachable cfg s) (hd : AllDone s) : LatchesFree s :=
+  allDone_free hr hd
+
+/-- The Commit wrapper (`Lock`; deferred `UnLock` on EVERY exit, the stale early return included — this is read
+    from the source of `KVTxn.Commit` on every run, `Gen.commitUnlockOnEveryExit`; commit ts 0 when stale or when
+    the commit failed) run while all other requests are finished: it never blocks, and afterwards every request is
+    finished and all latches are free — whether the transaction committed or was turned away as stale on any of
+    its keys (holding the smaller ones, or handed the key at a wake-up). -/
+theorem commit_wrapper_finishes {cfg : Cfg} {s : State} (hr : Reachable cfg s) {l : LockId} {lk : Lock} (commitTS : Nat)
+    (hl : s.locks l = some lk) (hothers : ∀ l' x, l' ≠ l → s.locks l' = some x → x.phase = .done) :
+    Reachable cfg (commitTxn cfg s l commitTS) ∧ AllDone (commitTxn cfg s l commitTS) ∧
+      LatchesFree (commitTxn cfg s l commitTS) := by
+  obtain ⟨h1, h2⟩ := commitTxn_finishes hr commitTS hl hothers
+  exact ⟨h1, h2, allDone_free h1 h2⟩
+
+/-- After ANY sequence of transactions (any start ts, any write sets with distinct keys, any commit ts incl. 0 =
+    commit failed), each going through the wrapper after the previous returned, all latches are free. -/
+theorem commit_sequence_leaves_latches_free (cfg : Cfg) (txns : List (Nat × List Key × Nat))
+    (hnd : ∀ t, t ∈ txns → t.2.1.Nodup) :
+    Reachable cfg (commitSeq cfg Latch.init txns) ∧ LatchesFree (commitSeq cfg Latch.init txns) := by
+  have hd0 : AllDone Latch.init := by intro l lk hl; simp [Latch.init] at hl
+  obtain ⟨h1, h2⟩ := commitSeq_finishes txns Latch.init .init hd0 hnd
+  exact ⟨h1, allDone_free h1 h2⟩
+
+/-- The concurrent version: however the wrappers of concurrent transactions and the scheduler goroutine interleave,
+    once no step of any lock is enabled any more (`every_request_returns`) all latches are free. -/
+theorem concurrent_commits_leave_latches_free {cfg : Cfg} {s s' : State} (hr : Reachable cfg s) (as : List Action)
+    (hall : ∀ a, a ∈ as → a.lockStep.isSome) (hrun : run cfg s as = some s')
+    (hmax : ∀ a s'', a.lockStep.isSome → step cfg s' a ≠ some s'') : LatchesFree s' :=
+  allDone_free (reachable_run as hr hrun) (every_request_returns hr as hall hrun hmax).1
+
 /-! ## non-vacuity: reachable states satisfying the hypotheses of the theorems above -/
 
 /-- two locks on different keys, both successful and not stale -/
@@ -462,5 +496,19 @@ example : ∃ s s' lkw lkw', Reachable cfg0 s ∧ step cfg0 s (.releaseSlot 0) =
       lkw.phase = .waiting ∧ lkw.nextKey = some k1 ∧ s'.locks 1 = some lkw' ∧ lkw'.phase = .woken := by latch_eval2
   obtain ⟨s, hs, s', lkw, lkw', h1⟩ := h
   exact ⟨s, s', lkw, lkw', reachable_run _ .init hs, h1⟩
+
+/-- hypotheses of `commit_wrapper_finishes`: one finished transaction, a second one about to commit -/
+example : ∃ s lk, Reachable cfg0 s ∧ s.locks 1 = some lk ∧ lk.phase = .acquiring ∧
+    ∀ l' x, l' ≠ 1 → s.locks l' = some x → x.phase = .done := by
+  have h : ∃ s, run cfg0 Latch.init [.genLock 10 [k1], .acquire 0, .unlock 0 20, .releaseSlot 0, .genLock 30 [k1]] = some s ∧
+      ∃ lk, s.locks 1 = some lk ∧ lk.phase = .acquiring ∧
+      ∀ l' x, l' ≠ 1 → s.locks l' = some x → x.phase = .done := by
+    latch_eval2
+    intro l' x hne
+    by_cases e : l' = 0
+    · subst e; simp; intro h; rw [← h]
+    · simp [hne, e]
+  obtain ⟨s, hs, lk, h1⟩ := h
+  exact ⟨s, lk, reachable_run _ .init hs, h1⟩
 
 end CGV.Props.C17
